@@ -1,0 +1,41 @@
+//go:build verif
+
+// Contracts for package transform, checked by /verif/govc (see /verif/DESIGN.md).  Comment-only file.
+
+package transform
+
+// ---------------------------------------------------------------------------------------------
+// C14: the alias mangler's Unmangle truth table (neither / primary / alias / both)
+// ---------------------------------------------------------------------------------------------
+
+//@ func transform.(*AliasMangler).Unmangle(a, sf, fvs) (v, err)
+//@   props C14
+//@   safety C16
+//@   requires pointerified_fields_are_nilable: forall k int :: 0 <= k && k < len(fvs) ==>
+//@        valid(fvs[k].Value) && isNilableKind(kind(vtype(fvs[k].Value)))
+//@   loop 0:
+//@     invariant C14_all_earlier_unset: forall k int :: 0 <= k && k < rangeidx && k < len(fvs) ==> visnil(fvs[k].Value)
+//@   ensures C14_no_alias_passthrough: len(fvs) == 1 ==> err == nil && v == fvs[0].Value
+//@   ensures C14_bad_arity_is_error: len(fvs) != 1 && len(fvs) != 2 ==> err != nil
+//@   ensures C14_both_set_is_error: len(fvs) == 2 && !visnil(fvs[0].Value) && !visnil(fvs[1].Value) ==> err != nil
+//@   ensures C14_primary_only: len(fvs) == 2 && !visnil(fvs[0].Value) && visnil(fvs[1].Value) ==> err == nil && v == fvs[0].Value
+//@   ensures C14_alias_only: len(fvs) == 2 && visnil(fvs[0].Value) && !visnil(fvs[1].Value) ==> err == nil && v == fvs[1].Value
+//@   ensures C14_neither_stays_unset: len(fvs) == 2 && visnil(fvs[0].Value) && visnil(fvs[1].Value) ==> err == nil && visnil(v) && v == fvs[0].Value
+//@   at call fmt.Errorf("both alias:
+//@     assert C14_error_names_the_field: len(arg1) == 1 && cell(selem(arg1, 0), "Iface") == box(sf.Name, "string")
+
+//@ func transform.(AliasMangler).ShouldRecurse(a, sf) (r)
+//@   props C14
+//@   safety C16
+//@   ensures C14_recurses_into_nested_structs: r
+
+//@ func transform.(*AliasMangler).Mangle(a, sf) (out, err)
+//@   props C14
+//@   safety C16
+//@   requires a != nil
+//@   loop 1:
+//@     invariant fresh(setAliases.arr)
+//@   ensures C14_one_or_two_fields: err == nil ==> len(out) == 1 || len(out) == 2
+//@   ensures C14_primary_field_kept: err == nil ==> out[0].Name == sf.Name && out[0].Type == sf.Type && out[0].Anonymous == sf.Anonymous
+//@   ensures C14_alias_field_same_type: err == nil && len(out) == 2 ==> out[1].Type == sf.Type
+//@   ensures C14_error_returns_nothing: err != nil ==> out == nil
